@@ -227,11 +227,11 @@ REVIEWED_FALLBACKS = {
 }
 
 
-def fallback_handlers(prog: Program, res: Results, closure) -> None:
+def fallback_handlers(prog: Program, res: Results, closure, rid: str = "R-C08-6") -> None:
     """R-C08-6: who may swallow an exception in the edit closure"""
     from sa.dtable import outcome
     from sa.util import handler_names
-    r = res.rule("R-C08-6", "refusals stay loud: in the set/rm and item-assignment closure an `except` clause that does not re-raise "
+    r = res.rule(rid, "refusals stay loud: in the set/rm and item-assignment closure an `except` clause that does not re-raise "
                  "on every path exists only at the reviewed fallback sites; any other one could turn a rejected edit into a silent "
                  "success on a substitute target", floor=6)
     keys = set(closure)
@@ -268,7 +268,7 @@ def fallback_handlers(prog: Program, res: Results, closure) -> None:
                 ok = seen[key] <= allowed
                 r.ob(ok, {"site": k, "catches": list(key[1]), "kind": "fallback", "reviewed": why})
                 if not ok:
-                    res.add("R-C08-6", (k, "unreviewed fallback handler", ",".join(key[1])), f.loc(h),
+                    res.add(rid, (k, "unreviewed fallback handler", ",".join(key[1])), f.loc(h),
                             f"{k}: `except {', '.join(key[1]) or 'BaseException'}` around `{norm(n.body[0])[:60]}` does not re-raise on every path: "
                             f"a refusal raised inside (unsupported shape, raw document, malformed path) can be replaced by a fallback "
                             f"and the edit proceeds on something else instead of failing loudly")
